@@ -11,6 +11,10 @@ SHIPPED = [
     "leaves..tutorial_gui", "normal..tutorial3.no_remote", "leaves..tutorial_get.explicit_noop", "leaves..tutorial_get.implicit_both",
     "leaves..tutorial_finale", "leaves..tutorial3.remote.object.control.decorator.util", "normal..tutorial2", "nonleaves..connect",
     "nonleaves..on_customize", "all..tutorial_get..explicit_clicked",
+    # a test selected through the nested set normal(.gui) that is also the setup of a test selected through another set
+    "only leaves..tutorial_get.explicit_noop,normal..tutorial_gui.client_noop\n",
+    "only normal..tutorial_gui.client_noop,leaves..tutorial_get.explicit_noop\n",
+    "only normal..tutorial_gui,leaves..tutorial_get.implicit_both\n",
 ]
 SHIPPED_VMS = [
     {"vm1": "only CentOS\n", "vm2": "only Win10\n", "vm3": "only Ubuntu\n"},
